@@ -10,6 +10,8 @@ import (
 	"github.com/pressly/goose/v3"
 
 	"github.com/openfga/openfga/assets"
+	"github.com/openfga/openfga/internal/verifsim/simrt"
+	"github.com/openfga/openfga/pkg/storage"
 	"github.com/openfga/openfga/pkg/storage/sqlcommon"
 	"github.com/openfga/openfga/pkg/storage/sqlite"
 )
@@ -88,4 +90,20 @@ func openSQLite(s *SimSQL, path string) (*sqlite.Datastore, error) {
 	db := s.OpenDB(uri)
 	cfg := sqlcommon.NewConfig()
 	return sqlite.NewWithDB(db, cfg)
+}
+
+// OpenForEngine gives another harness (the store-isolation check C16) the real SQLite datastore on a
+// fresh copy of the migrated template, through the simulated driver. The returned function closes
+// the datastore and removes the file.
+func OpenForEngine(run *simrt.Run) (storage.OpenFGADatastore, func(), error) {
+	p, err := freshDB()
+	if err != nil {
+		return nil, nil, err
+	}
+	ds, err := openSQLite(NewSimSQL(run), p)
+	if err != nil {
+		removeDB(p)
+		return nil, nil, err
+	}
+	return ds, func() { ds.Close(); removeDB(p) }, nil
 }
